@@ -371,7 +371,7 @@ class Scenario:
         steps = 0
         while steps < self.size and not self.dead:
             steps += 1
-            if r.chance(1, 45):
+            if r.chance(1, {"window": 160}.get(kind, 45)):
                 # checkpoint: run to idle in mid-history, so that losses which a later disconnect
                 # or takeover would hide are observable (calm-point completeness)
                 self.settle()
